@@ -80,19 +80,20 @@ LEAN = {
     # written in the last session: coordinates across the two formats (float ignores blanks), star-atom tables at file level
     "c08coords": "Contracts.C08Coords",
     "fileisostar": "Contracts.FileIsoStar",
+    "witness4": "Contracts.Witness4",
 }
 
 PROPS = {
-    "C01": dict(probes=["v3"], functions=CANON + SERIAL + V3000 + V2000, lean=["pipeline", "canonicalize", "finallabels", "layout", "serialize", "reader", "fileiso", "fileisostar", "v2000file", "witness2"], diff=["pipeline", "io"],
+    "C01": dict(probes=["v3"], functions=CANON + SERIAL + V3000 + V2000, lean=["pipeline", "canonicalize", "finallabels", "layout", "serialize", "reader", "fileiso", "fileisostar", "v2000file", "witness2", "witness4"], diff=["pipeline", "io"],
                 bounded=[("pipeline", "c01"), ("c01_text", None)],
                 canary="C01"),
     "C02": dict(probes=["v3"], functions=CANON + SERIAL + PARSER, lean=["roundtrip", "layout", "parser", "canonicalize"], diff=["pipeline", "parser"], bounded=[("c02", None)]),
     "C03": dict(probes=["v3"], functions=CANON + SERIAL + PARSER, lean=["final", "roundtrip", "layout", "parser", "canonicalize", "finallabels"], diff=["pipeline", "parser"], bounded=[("pipeline", "c03")]),
     "C04": dict(probes=["v3"], functions=CANON, lean=["canonicalize"], diff=["pipeline"], bounded=[("pipeline", "c04")]),
     "C05": dict(functions=CANON + SERIAL + V3000 + V2000, lean=["pipeline", "layout", "serialize", "reader", "v2000file", "fileiso", "witness2", "readerpost"], diff=["pipeline"], bounded=[("c05", None)]),
-    "C06": dict(functions=CANON + SERIAL + V3000 + V2000, lean=["final", "pipeline", "reader", "v3000", "v2000", "fileiso", "witness2", "fileisostar"], diff=["pipeline", "io"], bounded=[("c06", None)]),
+    "C06": dict(functions=CANON + SERIAL + V3000 + V2000, lean=["final", "pipeline", "reader", "v3000", "v2000", "fileiso", "witness2", "fileisostar", "witness4"], diff=["pipeline", "io"], bounded=[("c06", None)]),
     "C07": dict(functions=V3000, lean=["reader", "v30line", "v3000", "bonds", "c07star", "c07starbonds"], diff=["io"], bounded=[("c07", None)]),
-    "C08": dict(probes=["v5"], functions=V2000 + V3000 + CANON + SERIAL, lean=["final", "v2000", "reader", "v2000file", "bonds", "fileiso", "c08coords"], diff=["io"], bounded=[("c08", None)]),
+    "C08": dict(probes=["v5"], functions=V2000 + V3000 + CANON + SERIAL, lean=["final", "v2000", "reader", "v2000file", "bonds", "fileiso", "c08coords", "witness4"], diff=["io"], bounded=[("c08", None)]),
     "C09": dict(probes=["v5"], functions=WRITER + V3000 + PARSER + CANON + SERIAL, lean=["final", "writer", "v30line", "writerext", "bonds"], diff=["io"], bounded=[("c09", None)]),
     "C10": dict(functions=PARSER, lean=["parser", "c10full"], diff=["parser"], bounded=[("c10", None)]),
     "C11": dict(probes=["v3"], functions=PARSER + CANON + SERIAL, lean=["final", "roundtrip", "parser", "canonicalize", "layout", "finallabels", "c11ext"], diff=["parser", "pipeline"], bounded=[("c11", None)]),
@@ -121,8 +122,8 @@ TOP = {
                 note="two renderings that agree on the normalised identity data (element with D/T = H mass 2/3, mass, radical; 0 = unset) up to a bijection of the atom lines get one common string, both reads succeed: coordinates, bond orders and annotations, charges, headers, index values, foreign keywords, line endings (LF/CRLF mixtures) are free. File-level theorems: two star-free V3000 texts (FileIso.C01_C06_files, C06_files, C06_resonance), two V2000 renderings of abstract molecules with any encoding choices (Witness2.C06_v2000_renderings), V2000 vs V3000 of one molecule (C08). FileIso.C01_C06_v2000 / _v3000_v2000 generalise this over parsed line data and are intermediate only. Tables with star atoms: FileIsoStar.C01_C06_files_star (identity over the non-star atom lines, connectivity = linked, i.e. ENDPTS expanded; number, position and spelling of star atoms free; validity of the second file derived from the isomorphism)"),
     "C07": dict(level="proof", theorems=["Contracts.Reader.graph_from_molfile_text_render_ok", "Contracts.Reader.fileMeaning_plain_graph", "Contracts.V3000._parse_atom_attributes_ok", "Contracts.V30Line.splice_phys", "Contracts.Bonds.graph_from_molfile_text_render_ok_bonds", "Contracts.C07Star.graph_from_molfile_text_render_star", "Contracts.C07Star.graph_from_molfile_text_render_star_bonds", "Contracts.C07Star.graph_from_molfile_text_render_star_reject", "Contracts.C07Star.keyword_order_text", "Contracts.C07Star.wf_of_format", "Contracts.C07Star._parse_atom_attributes_keyword_order"],
                 note="V3000 renderer with arbitrary blank runs, cut points, header lines, separators, index values, keyword order (each of CHG/RAD/MASS at most once, shown necessary), foreign keywords; atoms, attributes and bond types on the returned graph; star atoms with ENDPTS expanded at text level (C07Star). float() opaque (V5). Known finding D11: a quoted string value containing a word like CHG=5 is misread (tokenizer not quote-aware)"),
-    "C08": dict(level="proof", theorems=["Contracts.Final.C08_agree", "Contracts.Reader.graph_from_molfile_text_v2000", "Contracts.V2000._parse_attribute_block_ok", "Contracts.V2000.specGet_mass_kept", "Contracts.V2000File.read_v2000_render", "Contracts.V2000File.read_v3000_render", "Contracts.V2000File.read_v2000_eq_v3000", "Contracts.V2000File.read_v2000_eq_v3000_lists", "Contracts.C08Coords.read_v2000_eq_v3000_coords", "Contracts.C08Coords.read_v2000_eq_v3000_coords'", "Contracts.C08Coords.read_v2000_eq_v3000_lists_coords", "Contracts.C08Coords.coordOf_eq_flt"],
-                note="an abstract molecule (<= 999 atoms) rendered as V2000 with any choice of charge code vs M CHG/M RAD lines (supersession rule), grouping of 1-8 entries per line, unrelated property lines, atom lists, D/T with or without M ISO is read as exactly that molecule: element, charge, radical, mass, adjacency, bond types (V2000File.read_v2000_render); its V3000 rendering is read with the same values and both get the same TUCAN string (read_v2000_eq_v3000). Coordinates: every attribute of every node, coordinates included, agrees between the two readings (C08Coords.read_v2000_eq_v3000_coords) under the hypothesis FloatIgnoresBlanks = float() of a blank-padded ten-column field equals float() of the bare token (a law of CPython's float, satisfiable with a non-constant model: floatIgnoresBlanks_satisfiable; probed on CPython in probe V5); without that hypothesis all keys but the coordinates (read_v2000_eq_v3000)"),
+    "C08": dict(level="proof", theorems=["Contracts.Final.C08_agree", "Contracts.Reader.graph_from_molfile_text_v2000", "Contracts.V2000._parse_attribute_block_ok", "Contracts.V2000.specGet_mass_kept", "Contracts.V2000File.read_v2000_render", "Contracts.V2000File.read_v3000_render", "Contracts.V2000File.read_v2000_eq_v3000", "Contracts.V2000File.read_v2000_eq_v3000_lists", "Contracts.C08Coords.read_v2000_eq_v3000_coords", "Contracts.C08Coords.read_v2000_eq_v3000_coords'", "Contracts.C08Coords.read_v2000_eq_v3000_lists_coords", "Contracts.Witness4.read_v2000_eq_v3000_lists_coords'", "Contracts.C08Coords.coordOf_eq_flt"],
+                note="an abstract molecule (<= 999 atoms) rendered as V2000 with any choice of charge code vs M CHG/M RAD lines (supersession rule), grouping of 1-8 entries per line, unrelated property lines, atom lists, D/T with or without M ISO is read as exactly that molecule: element, charge, radical, mass, adjacency, bond types (V2000File.read_v2000_render); its V3000 rendering is read with the same values and both get the same TUCAN string (read_v2000_eq_v3000). Coordinates: when both files write the same coordinate token (V2000: right-aligned in its ten columns), every attribute of every node, coordinates included, agrees between the two readings (C08Coords.read_v2000_eq_v3000_coords') under the hypothesis FloatIgnoresBlanks = float() of a blank-padded ten-column field equals float() of the bare token (a law of CPython's float, satisfiable with a non-constant model: floatIgnoresBlanks_satisfiable; probed on CPython in probe V5); without that hypothesis all keys but the coordinates (read_v2000_eq_v3000). Not covered: numerically equal but differently spelled coordinate tokens (1.2 vs 1.2000), blank coordinate fields"),
     "C09": dict(level="proof", theorems=["Contracts.Writer.C09", "Contracts.Final.C09_tucan", "Contracts.Final.C09_string", "Contracts.Writer.C09_line_length", "Contracts.Writer.C09_splice", "Contracts.Writer.C09_atom_roundtrip", "Contracts.WriterExt.C09_coords", "Contracts.WriterExt.C09_tucan'", "Contracts.WriterExt.C09_string'", "Contracts.WriterExt.written_wellformed", "Contracts.WriterExt.written_wellformed_parsed", "Contracts.Bonds.C09_tucan_bonds", "Contracts.Bonds.C09_string_bonds"],
                 note="written file satisfies a format-level well-formedness predicate written from the CTfile rules (WriterExt.written_wellformed) incl. <= 80 characters per line; reading back gives the same atoms in order with element, charge, radical, mass, bond types on the graph (Bonds.C09_tucan_bonds) and coordinates equal to six decimals (WriterExt.C09_coords) under FloatLawful = float law V5 as a Lean hypothesis (satisfiable; probed on CPython); string round trip with hypotheses on the string only (C09_string'). Radicals 1..3 and labels >= 0 as in the quantifier"),
     "C10": dict(level="other", theorems=["Contracts.Parser.graph_from_tree_ok", "Contracts.Parser.graph_from_tree_error_is_TPE", "Contracts.Parser.int_total", "Contracts.C10Full.grammar_iff_ast", "Contracts.C10Full.C10_iff", "Contracts.C10Full.C10_accept", "Contracts.C10Full.C10_reject", "Contracts.C10Full.C10_total"],
@@ -162,9 +163,11 @@ WITNESSES["C01"].append((_W2, _W2 + ".C01_files_witness"))
 WITNESSES["C06"].append((_W2, _W2 + ".C06_files_witness"))
 WITNESSES["C08"] += [(_W2, _W2 + ".read_v2000_render_witness"), (_W2, _W2 + ".read_v2000_eq_v3000_witness")]
 WITNESSES["C09"].append((_W2, _W2 + ".C09_tucan'_witness"))
-WITNESSES["C08"] += [("Contracts.C08Coords", "Contracts.C08Coords.coords_witness"), ("Contracts.C08Coords", "Contracts.C08Coords.floatIgnoresBlanks_satisfiable")]
+WITNESSES["C08"] += [("Contracts.C08Coords", "Contracts.C08Coords.coords_witness"), ("Contracts.C08Coords", "Contracts.C08Coords.floatIgnoresBlanks_satisfiable"),
+                     ("Contracts.Witness4", "Contracts.Witness4.lists_coords_witness")]
 for _p in ("C01", "C06"):
-    WITNESSES[_p] += [("Contracts.FileIsoStar", "Contracts.FileIsoStar.star_witness"), ("Contracts.FileIsoStar", "Contracts.FileIsoStar.files_star_witness")]
+    WITNESSES[_p] += [("Contracts.FileIsoStar", "Contracts.FileIsoStar.star_witness"), ("Contracts.FileIsoStar", "Contracts.FileIsoStar.files_star_witness"),
+                      ("Contracts.Witness4", "Contracts.Witness4.star_witness4"), ("Contracts.Witness4", "Contracts.Witness4.files_star_witness4")]
 WITNESSES["C11"].append((_W2, _W2 + ".C11_renumber_witness"))
 WITNESSES["C13"].append((_W2, _W2 + ".C13_attrs_witness"))
 WITNESSES["C05"] += [("Contracts.Witness3", "Contracts.Witness3.C05_star_witness"), ("Contracts.Witness3", "Contracts.Witness3.C05_D_iso5_witness")]
